@@ -113,7 +113,7 @@ class Calibration(TorchFunctionMode):
         self.pre_handle.remove()
         self.post_handle.remove()
 
-    def calibrate_input(self, module: torch.nn.Module, input, momentum: float = 0.9):
+    def calibrate_input(self, module: torch.nn.Module, input):
         if isinstance(module, QModuleMixin) and module.activation_qtype is not None:
             input = input[0]
             if isinstance(input, QBytesTensor):
@@ -122,7 +122,7 @@ class Calibration(TorchFunctionMode):
             else:
                 # Evaluate the best scale
                 input_scale = absmax_scale(input, module.activation_qtype)
-                module.input_scale = _updated_scale(module.input_scale, input_scale, momentum)
+                module.input_scale = _updated_scale(module.input_scale, input_scale, self.momentum)
             return input
 
     def calibrate_output(
